@@ -21,8 +21,10 @@ from .repo import VERIF_DIR, activate, repo_path
 from .result import Aggregate, Result
 from .shrink import Budget
 
-EVIDENCE_DIR = os.path.join(VERIF_DIR, "evidence")
-REPLAY_DIR = os.path.join(VERIF_DIR, "replays")
+# overridable so that the sensitivity self-test (which aims a check at a mutated scratch copy)
+# never touches the committed evidence or the replay directory
+EVIDENCE_DIR = os.environ.get("VERIF_EVIDENCE_DIR") or os.path.join(VERIF_DIR, "evidence")
+REPLAY_DIR = os.environ.get("VERIF_REPLAY_DIR") or os.path.join(VERIF_DIR, "replays")
 
 
 class RunTimeout(BaseException):
